@@ -21,7 +21,9 @@ def run_demos():
         m = re.search(r"^package (\w+)", src, re.M)
         d = PKG.get(m.group(1))
         if not d:
-            print("unknown package", m.group(1)); continue
+            # a stand-alone demonstration package
+            d = os.path.join("zzdemo", m.group(1))
+            os.makedirs(os.path.join(wt, d), exist_ok=True)
         shutil.copy(f, os.path.join(wt, d, os.path.basename(f)))
         names = re.findall(r"^func (Test\w+)\(", src, re.M)
         placed.setdefault(d, []).extend(names)
